@@ -25,9 +25,16 @@ def run(ctx):
     pe, nn_e, ne_e = vf.path_cover(ideal.edges, init_pred=init)
     for p in pe:
         p["tag"] = "edge"
+    if ideal.second is not None:
+        pe2, nn2, ne2 = vf.path_cover(ideal.second.edges, init_pred=init)
+        for p in pe2:
+            p["tag"] = "edge"
+        pe += pe2
+        ne_e += ne2
     ph, nn_h, ne_h = E.tree_paths(histr.edges, init, "hist")
     paths += pe + ph
-    states, trans = ideal.distinct + histr.distinct, ne_e + ne_h
+    states = ideal.distinct + histr.distinct + (ideal.second.distinct if ideal.second is not None else 0)
+    trans = ne_e + ne_h
     for x in extra:
         px, nx, ex = E.tree_paths(x.edges, init, "hist")
         paths += px
@@ -68,9 +75,12 @@ def run(ctx):
                            vf.canon(m.get("spec_t")), m.get("real_res"), vf.canon(m.get("real_t"))))
     sample_h = [p for p in ph if len(p["steps"]) > 6]
     ctx.evidence("model_checking",
-                 assumptions=["bounded universe: 3 networks (127.1.0.0/16, nested 127.1.2.0/24, ::1/128), 4 configurations, "
-                              "20 destinations (IPv4, IPv6, IPv4-mapped, names incl. IP literals, case variants, near-miss "
-                              "names), metrics {1,2}",
+                 assumptions=["bounded universe: 5 networks (127.1.0.0/16, nested 127.1.2.0/24, ::1/128 and the default routes "
+                              "0.0.0.0/0 and ::/0), 8 configurations (nothing, exit disabled, network + patterns, two narrow "
+                              "networks, a default route of one family alone / next to a narrow network of the other family), "
+                              "23 destinations (IPv4, IPv6 incl. one outside ::1, IPv4-mapped, names incl. IPv6-only names, IP "
+                              "literals of both families, case variants, near-miss names), metrics {1,2}; membership is "
+                              "family-aware (an IPv4 or IPv4-mapped address lies in IPv4 networks only)",
                               "the state graph is explored exhaustively (route operations of any length); in addition every "
                               "history of <= %d add/remove operations is executed on a fresh real agent" %
                               (3 if ctx.quick() else 5),
